@@ -589,22 +589,26 @@ def f3(prog: Program, chk: Check) -> None:
 # --------------------------------------------------------------------- F5
 def f5(prog: Program, chk: Check) -> None:
     chk.rule("F5", "each system of a mean-field computation gets the influence functions of its "
-             "own bath: no memo in MeanFieldTempo (incl. the closures it builds) identifies a "
-             "bath by less than what the stored value depends on (a name is not an identity)",
+             "own bath, and the propagators of its own step: no memo in MeanFieldTempo or its "
+             "back end (incl. the closures they build, and caches validated by a stored key) "
+             "identifies a value by less than what it depends on (a name is not an identity; a "
+             "field value is not a time step)",
              floor=1)
     from rules.c20 import memo_findings
-    ci = prog.cls("tempo:MeanFieldTempo")
     units = []
-    for mu in ci.methods.values():
-        units += [mu] + [v for v in prog.all_nested(mu) if not isinstance(v.node, ast.Lambda)]
+    for cq in ("tempo:MeanFieldTempo", "backends.tempo_backend:MeanFieldTempoBackend"):
+        ci = prog.cls(cq)
+        for mu in ci.methods.values():
+            units += [mu] + [v for v in prog.all_nested(mu) if not isinstance(v.node, ast.Lambda)]
     n = 0
     for (u, node, construct, missing) in memo_findings(prog, units):
         n += 1
         chk.saw(u)
         chk.add("F5", u, construct, not missing,
                 "identified by everything it depends on" if not missing else
-                f"the stored value depends on {missing}, the key does not: a second system whose "
-                f"bath agrees in the key is given the first bath's influence functions", node)
+                f"the stored value depends on {missing}, the key does not: it is served again "
+                f"where {missing[0]} differs (another bath with the same name, another time step "
+                f"with the same field value)", node)
     chk.add("F5", prog.module("tempo"), f"{len(units)} functions of MeanFieldTempo scanned, {n} "
             f"memo idiom(s)", len(units) >= 10, "" if len(units) >= 10 else "the class shrank")
 
